@@ -231,8 +231,21 @@ def _frag_empty():
     return d.hugr
 
 
+def _frag_loop_root():
+    from hugr import ops, tys
+    from hugr.build.cond_loop import TailLoop
+
+    t = TailLoop([tys.Bool], [tys.Qubit])
+    b, q = t.inputs()
+    tag = t.add_op(ops.Break(tys.Either([tys.Bool], [tys.Bool, tys.Bool])), b, b)
+    t.set_loop_outputs(tag, q)
+    return t.hugr
+
+
 #: name -> (thunk building the hugr, function type spec of the value)
 FRAGMENTS = {
+    # the body of a TailLoop maps just_inputs + rest to [Sum(just_inputs, just_outputs), *rest]
+    "looproot": (_frag_loop_root, ["G", [BOOL, QB], [["Sum", [[BOOL], [BOOL, BOOL]]], QB], []]),
     "id": (_frag_id, ["G", [BOOL], [BOOL], []]),
     "notq": (_frag_not_q, ["G", [BOOL, QB], [QB, BOOL, BOOL], []]),
     "fdef": (_frag_funcdefn, ["G", [QB], [QB], []]),
@@ -247,7 +260,10 @@ def value_specs(tier):
         ["IntV", 3, 5], ["IntV", 0, 0], ["IntV", -1, 6], ["FloatV", 1.5], ["FloatV", 0.0], ["StringV", ""], ["StringV", "hé✓"],
         ["ExtV", "MyConst", ["Opaque", "ext.x", "Tc", C, []], {"a": [1, None]}, ["ext.x"]],
         ["ExtV", "Lin", ["Opaque", "ext.x", "Tl", A, [["TA", QB]]], 7, []],
-        ["FuncV", "id"], ["FuncV", "notq"], ["FuncV", "fdef"], ["FuncV", "empty"],
+        ["FuncV", "id"], ["FuncV", "notq"], ["FuncV", "fdef"], ["FuncV", "empty"], ["FuncV", "looproot"],
+        ["ExtV", " Padded Name ", ["Opaque", "ext.x", "Tc", C, []], " payload\n", ["ext.x"]],
+        ["ExtV", "NullPayload", ["Opaque", "ext.x", "Tc", C, []], None, []],
+        ["StringV", "  padded\n"],
     ]
     for w in range(0, 7):
         leaves.append(["IntV", 1, w])
@@ -607,6 +623,13 @@ def op_specs(tier):
     poly_id = ["Poly", [["TP", C]], G([["V", 0, C]], [["V", 0, C]])]
     poly2 = ["Poly", [["TP", A], ["NP", 7]], G([["V", 0, A], ["int", 3]], [["V", 0, A]])]
     rowp = ["Poly", [["LP", ["TP", A]]], G([["R", 0, A]], [BOOL, ["R", 0, A]])]
+    out.append(["FuncDecl", " padded name\t", poly_id])
+    out.append(["FuncDecl", "unbounded", ["Poly", [["NP", None], ["LP", ["NP", None]]], G([], [])]])
+    out.append(["FuncDefn", "  f ", [["NP", None]], [], []])
+    out.append(["AliasDecl", " al ", C])
+    out.append(["AliasDefn", "al\n", BOOL])
+    out.append(["Custom", " ext.pad ", " op ", G([BOOL], []), "line one\nline two\n ", [["SA", "  padded label\n"], ["VA", 0, ["NP", None]]]])
+    out.append(["Call", ["Poly", [["NP", None]], G([], [])], G([], []), [["NA", 4]]])
     out.append(["FuncDecl", "pid", poly_id])
     out.append(["FuncDecl", "rowp", rowp])
     out.append(["FuncDefn", "pdef", [["TP", C]], [["V", 0, C]], [["V", 0, C], ["V", 0, C]]])
